@@ -57,6 +57,8 @@ pub struct Planted {
     pub arcs: Vec<DatumCircularArc>,
     pub cons: Vec<Constraint>,
     pub scale: f64,
+    /// Where the sketch lives: every generated position is `origin + scale * (..)`.
+    pub origin: (f64, f64),
 }
 
 impl Planted {
@@ -100,7 +102,7 @@ impl Planted {
         (self.xs[p.x_id as usize], self.xs[p.y_id as usize])
     }
     fn rand_xy(&self, rng: &mut Rng) -> (f64, f64) {
-        (self.scale * rng.sym(), self.scale * rng.sym())
+        (self.origin.0 + self.scale * rng.sym(), self.origin.1 + self.scale * rng.sym())
     }
     /// Any point-like datum: free points, circle centres, arc points.
     fn any_point(&mut self, rng: &mut Rng) -> DatumPoint {
@@ -468,6 +470,12 @@ pub const PLANTED_SHAPES: [&str; 27] = crate::gen_sys::SHAPES;
 pub fn gen_planted(rng: &mut Rng, max_cons: usize, pert: f64, shapes: &[&str]) -> System {
     let scale = *rng.pick(&[0.1, 1.0, 1.0, 10.0, 100.0]);
     let mut pl = Planted::new(scale);
+    // now and then a sketch that does not live around the origin (a part drawn at (5000, 3000), a site
+    // plan in millimetres): sizes stay `scale`, coordinates are large; anything relative to the
+    // coordinate magnitude (step test, clipping, relative tolerances) behaves differently there
+    if rng.chance(1, 8) {
+        pl.origin = *rng.pick(&[(5000.0, 3000.0), (-2.0e4, 7.0e4), (4.0e5, -9.0e5), (1.5e6, 2.5e6)]);
+    }
     let n = rng.range(1, max_cons);
     for _ in 0..n {
         let shape = *rng.pick(shapes);
@@ -475,7 +483,7 @@ pub fn gen_planted(rng: &mut Rng, max_cons: usize, pert: f64, shapes: &[&str]) -
     }
     // unmentioned extra variables, sometimes
     if rng.chance(1, 4) {
-        let (x, y) = (scale * rng.sym(), scale * rng.sym());
+        let (x, y) = (pl.origin.0 + scale * rng.sym(), pl.origin.1 + scale * rng.sym());
         pl.point(x, y);
     }
     let anchored = rng.chance(1, 2);
@@ -532,6 +540,27 @@ pub const LINEAR_SHAPES: [&str; 9] = [
 
 fn dyadic(rng: &mut Rng) -> f64 {
     (rng.below(129) as f64 - 64.0) / 8.0
+}
+
+/// Multiply every parameter of a linear system by `2^kp` and every guess by `2^kg` (exact in f64):
+/// large sketches, and guesses millions of units away from the solution.
+pub fn with_magnitudes(mut sys: System, kp: i32, kg: i32) -> System {
+    let (fp, fg) = (2f64.powi(kp), 2f64.powi(kg));
+    for r in sys.reqs.iter_mut() {
+        let c = match *r.constraint() {
+            Constraint::Fixed(id, v) => Constraint::Fixed(id, v * fp),
+            Constraint::HorizontalDistance(p, q, d) => Constraint::HorizontalDistance(p, q, d * fp),
+            Constraint::VerticalDistance(p, q, d) => Constraint::VerticalDistance(p, q, d * fp),
+            Constraint::CircleRadius(c, d) => Constraint::CircleRadius(c, d * fp),
+            c => c,
+        };
+        *r = ConstraintRequest::new(c, r.priority());
+    }
+    for g in sys.guesses.iter_mut() {
+        g.1 *= fg;
+    }
+    sys.scale *= fp.max(fg);
+    sys
 }
 
 /// A linear system over up to `max_points` points (and sometimes a circle) with dyadic-rational
